@@ -16,6 +16,8 @@
 //!   rf_pivots steps rels | rf_dense rels | rf_rowsub i j c rels | rf_trim count rels
 //!                                  -> hook: RelFilterSparse (relation filter) with a dump of its whole state
 //!   cg_poly D first count target   -> hook: the real sieve, one polynomial at a time, with the relations it produced
+//!   cg_h / cg_full / cg_poly answer `panic <message> @ <file>:<line>` (first panic of the request, worker threads
+//!   included) instead of the bare `panic` of main.rs: props/c18.py accepts only the recorded refusals
 use crate::util::*;
 use std::str::FromStr;
 use std::sync::atomic::{AtomicUsize, Ordering};
@@ -122,7 +124,45 @@ pub fn handle(op: &str, a: &[&str]) -> Option<String> {
         a.pop();
     }
     let _ = has_kv;
+    if matches!(op, "cg_h" | "cg_full" | "cg_poly") {
+        // these three ops answer `panic <message> @ <file>:<line>` (first panic of the request) instead of the bare
+        // `panic` of main.rs: the oracle tells the recorded refusals (C19 lattice index, Smith form) from any other panic
+        return with_panic_message(move || handle_with(op, &a, pf));
+    }
     handle_with(op, &a, pf)
+}
+
+static FIRST_PANIC: std::sync::Mutex<Option<String>> = std::sync::Mutex::new(None);
+
+/// runs `f` under catch_unwind with a panic hook that records message and location of the FIRST panic
+/// (worker threads included); the previous hook is put back afterwards
+fn with_panic_message(f: impl FnOnce() -> Option<String>) -> Option<String> {
+    *FIRST_PANIC.lock().unwrap_or_else(|e| e.into_inner()) = None;
+    let prev = std::panic::take_hook();
+    std::panic::set_hook(Box::new(|info| {
+        let msg = if let Some(s) = info.payload().downcast_ref::<&str>() {
+            s.to_string()
+        } else if let Some(s) = info.payload().downcast_ref::<String>() {
+            s.clone()
+        } else {
+            "?".to_string()
+        };
+        let loc = info.location().map(|l| format!("{}:{}", l.file(), l.line())).unwrap_or_else(|| "?".into());
+        let mut g = FIRST_PANIC.lock().unwrap_or_else(|e| e.into_inner());
+        if g.is_none() {
+            let one: String = msg.split_whitespace().collect::<Vec<_>>().join(" ");
+            *g = Some(format!("{} @ {}", one.chars().take(160).collect::<String>(), loc));
+        }
+    }));
+    let r = std::panic::catch_unwind(std::panic::AssertUnwindSafe(f));
+    std::panic::set_hook(prev);
+    match r {
+        Ok(x) => x,
+        Err(_) => {
+            let m = FIRST_PANIC.lock().unwrap_or_else(|e| e.into_inner()).take();
+            Some(format!("panic {}", m.unwrap_or_else(|| "? @ ?".into())))
+        }
+    }
 }
 
 fn handle_with(op: &str, a: &[&str], pf: Preferences) -> Option<String> {
